@@ -749,6 +749,9 @@ func (e *Env) convert(v Term, from, to types.Type, n ast.Node) Term {
 		return v
 	}
 	if ts == SIface {
+		if b, ok := from.(*types.Basic); ok && b.Kind() == types.UntypedNil {
+			return e.u().zero(SIface)
+		}
 		return e.st.makeIface(v, from)
 	}
 	if ts == SStr && v.Sort == SSlice {
